@@ -42,3 +42,6 @@ Definition forwarded (pol : option policy) (c : call) (names : list string) : bo
   | None => true
   | Some p => if c_stream c then acl_stream p c else acl_unary p c names
   end.
+
+(* workflowServiceProxyServer.ListNamespaces: the upstream list is filtered by the namespace allow-list, in order *)
+Definition list_filter (p : policy) (names : list string) : list string := filter (is_allowed (p_namespaces p)) names.
